@@ -389,6 +389,8 @@ func (x *Exec) opAllocate(st *Step) { //nolint:cyclop,gocyclo,maintidx
 		return
 	}
 	lostRetry := false
+	var firstAttempt time.Time
+	genBeforeRetry := -1
 	if lost && rq.resp == nil {
 		x.St.inc("response-lost:allocate")
 		switch {
@@ -399,8 +401,10 @@ func (x *Exec) opAllocate(st *Step) { //nolint:cyclop,gocyclo,maintidx
 
 			return
 		}
+		firstAttempt = x.opStart // the allocation, if the lost attempt created it, counts from then
 		x.tick()
 		failsBefore = x.w.gen.failed // (a scripted generator failure may have hit the lost attempt)
+		genBeforeRetry = len(x.w.gen.made)
 		rq, _, proceed = x.authExchange(c, ui, m, st, ref.MethodAllocate, "Allocate (retransmitted after a lost response)")
 		if !proceed {
 			return
@@ -524,6 +528,7 @@ func (x *Exec) opAllocate(st *Step) { //nolint:cyclop,gocyclo,maintidx
 	relay := &net.UDPAddr{IP: rip, Port: rport}
 	a := &MAlloc{
 		Client: c.Idx, User: user, Family: fam, TCP: st.Tcp, Relay: relay,
+		// (the deadline is corrected below when a lost first attempt had already created the allocation)
 		Deadline: x.opStart.Add(want), CachedTx: rq.tx, CachedResp: map[uint16][]byte{},
 		Perms: map[string]time.Time{}, PermInstalls: map[string]int{}, Chans: map[uint16]*MChan{}, TCPs: map[uint32]*MTCP{},
 		CreatedStep: x.w.stepNo,
@@ -580,6 +585,10 @@ func (x *Exec) opAllocate(st *Step) { //nolint:cyclop,gocyclo,maintidx
 		}
 		x.lastToken = nil
 		x.St.inc("allocate-token")
+	}
+	if lostRetry && genBeforeRetry == len(x.w.gen.made) {
+		// the retransmission was answered from the response cache: the lost attempt made the allocation
+		a.Deadline = firstAttempt.Add(want)
 	}
 	x.m.Allocs[c.Idx] = a
 	c.AllocTx, c.HasAlloc = rq.tx, true
